@@ -893,7 +893,7 @@ func (p *parser) parseArrayTypeOrSliceLit(state int, slice ast.Expr) (expr ast.E
 			if debugParseOutput {
 				log.Printf("ast.IndexExpr{X: %v, Index: %v}\n", slice, len)
 			}
-			return &ast.IndexExpr{X: slice, Index: len}, resultSliceOp
+			return &ast.IndexExpr{X: slice, Lbrack: lbrack, Index: len, Rbrack: rbrack}, resultSliceOp
 		}
 	default:
 		panic("parseArrayTypeOrSliceLit: unexpected state")
